@@ -487,6 +487,10 @@ pub struct ConcCase {
     pub threads: u8,
     pub rounds: u32,
     pub base_page: u8,
+    /// while the writers of a round are running, the front end sends SET_LOG_BASE again (same log file): writes that
+    /// coincide with the replacement of the bitmaps must still be logged
+    #[serde(default)]
+    pub switch_log: bool,
 }
 
 pub fn run_conc(ctx: &mut Ctx, c: &ConcCase) -> Result<(), String> {
@@ -541,6 +545,12 @@ pub fn run_conc(ctx: &mut Ctx, c: &ConcCase) -> Result<(), String> {
         log.write_all_at(&[0, 0], first_byte).map_err(|e| e.to_string())?;
         done.store(0, Ordering::Release);
         go.store(r + 1, Ordering::Release);
+        if c.switch_log {
+            if s.get(fe::SET_LOG_BASE, &spec::b_log(PAGE, 0), &[log.as_raw_fd()])?.is_none() {
+                res = Err(format!("round {r}: SET_LOG_BASE (same log again) refused"));
+                break;
+            }
+        }
         while done.load(Ordering::Acquire) < nthreads {
             std::hint::spin_loop();
         }
@@ -559,7 +569,7 @@ pub fn run_conc(ctx: &mut Ctx, c: &ConcCase) -> Result<(), String> {
         let _ = t.join();
     }
     ctx.evals(c.rounds as u64);
-    ctx.class_n("concurrent_rounds", c.rounds as u64);
+    ctx.class_n(if c.switch_log { "concurrent_rounds_during_log_switch" } else { "concurrent_rounds" }, c.rounds as u64);
     ctx.nontrivial(&("conc", nthreads, c.base_page % 4));
     s.close();
     res
@@ -599,7 +609,7 @@ pub fn run(ctx: &mut Ctx) {
                 vring.add_used / region.bitmap().mark_dirty (len 0, 1, 4096, 4097, rest of region, usize::MAX) with offsets and lengths crossing \
                 0, 1 and many page boundaries, interleaved with further SET_LOG_BASE, SET_MEM_TABLE, ADD_MEM_REG, REM_MEM_REG. After every step \
                 every log file ever installed is read back completely (pread) and compared with the expected bitmap; bytes outside the window \
-                must stay 0. Concurrent part: 2..16 threads, one page each, pages in the same log byte(s), spin-barrier rounds. Non-trivial = a \
+                must stay 0. Concurrent part: 2..16 threads, one page each, pages in the same log byte(s), spin-barrier rounds; in a third of the cases the front end re-sends SET_LOG_BASE while the writers of a round are running. Non-trivial = a \
                 write touching >= 2 pages, a used-ring update, a second/refused SET_LOG_BASE while logging, or a table change while logging."
         .into();
     ctx.assumptions = vec![
@@ -617,6 +627,6 @@ pub fn run(ctx: &mut Ctx) {
     ctx.prop_check("histories", cases, strat, |ctx, h| run_hist(ctx, h));
 
     let (ccases, rounds) = ctx.tier.pick((12u32, 2000u32), (60u32, 20_000u32));
-    let cstrat = (2u8..=16, Just(rounds), 0u8..4).prop_map(|(threads, rounds, base_page)| ConcCase { threads, rounds, base_page });
+    let cstrat = (2u8..=16, Just(rounds), 0u8..4, prop_oneof![2 => Just(false), 1 => Just(true)]).prop_map(|(threads, rounds, base_page, switch_log)| ConcCase { threads, rounds, base_page, switch_log });
     ctx.prop_check("concurrent_writers", ccases, cstrat, |ctx, c| run_conc(ctx, c));
 }
